@@ -10,7 +10,7 @@ from . import engine as E
 BUILTINS = {'len', 'int', 'str', 'bool', 'min', 'max', 'sum', 'abs', 'list', 'tuple', 'set', 'frozenset', 'dict', 'zip',
             'enumerate', 'reversed', 'range', 'isinstance', 'any', 'all', 'sorted', 'repr', 'print', 'iter', 'next',
             'bytes', 'float', 'id', 'hash', 'type', 'getattr', 'hasattr', 'divmod', 'chr', 'ord', 'format', 'super',
-            'callable', 'object', 'NotImplemented', 'round'}
+            'callable', 'object', 'NotImplemented', 'round', 'issubclass'}
 SPEC_BUILTINS = {'seq_tab', 'allocated', 'forall', 'exists', 'implies', 'iff', 'old', 'ite', 'seq_get', 'subset', 'setof', 'distinct', 'is_prefix',
                  'is_none', 'some', 'emptyset', 'set_add', 'set_remove', 'seq_take', 'seq_drop', 'index_of', 'card',
                  'str_len', 'str_at', 'str_contains', 'str_indexof', 'str_prefixof', 'str_suffixof', 'str_sub',
@@ -173,7 +173,15 @@ def call_builtin(ex, name, args, kwargs, node):
             rel_, cls_ = ex.w.class_src[a0.ty.cls]
             ex.vf.note_assumption('type(x) of a %s taken to be %s itself (no subclass instances)' % (a0.ty.cls, cls_))
             return ex.class_obj(rel_, cls_)
+        uni = [t_ for t_ in ex.w.types.values() if isinstance(t_, T.TRef) and t_.universal]
+        if isinstance(a0.ty, TRef) and uni:      # the class of an opaque object: an opaque class object, a function of the object
+            ty_ = ex.w.types.get('Ty') if isinstance(ex.w.types.get('Ty'), T.TRef) else uni[0]
+            return V(ty_, z3.Function('type_of_' + a0.ty.cls, T.sort_of(a0.ty), T.sort_of(ty_))(a0.t))
         raise Unsupported('type() of %r' % a0.ty)
+    if name == 'issubclass' and len(args) == 2 and isinstance(args[0], V) and isinstance(args[0].ty, TRef) and args[0].ty.universal and isinstance(args[1], (E.ClassRef, E.BuiltinRef)):
+        # a class object known only as an opaque value against a named class: an uninterpreted predicate
+        cn = args[1].name.split('.')[-1]
+        return vbool(z3.Function('issubclass_' + cn, T.sort_of(args[0].ty), z3.BoolSort())(args[0].t))
     if name == 'isinstance':
         return vbool(_isinstance(ex, args[0], args[1]))
     if name == 'repr' or name == 'format':
